@@ -429,6 +429,14 @@ func (s *session) EnqueueBytesAndSend(msg []byte) {
 	s.sendMutex.Lock()
 	defer s.sendMutex.Unlock()
 
+	if !s.IsLoggedOn() {
+		// A replay may still be answered after our Logout (or while the logon is being completed).
+		// Messages the application queued meanwhile must not go out with it: they are dropped,
+		// not sent, when the session is not logged on.
+		s.sendBytes(msg, true)
+		return
+	}
+
 	s.toSend = append(s.toSend, msg)
 	s.sendQueued(true)
 }
